@@ -123,6 +123,9 @@ def finish(engine, prop, tier, seed, runs, res, wall, write_evidence=True, diges
         return 2 if harness else 0
 
     viols = [r["violation"] for r in good if r.get("violation")]
+    weak = [r["weak_violation"] for r in good if r.get("weak_violation")]
+    if not viols and weak:
+        viols = weak[:1]          # nothing better was found: report it, flagged as not exactly replayable
     os.makedirs(env.REPLAY_DIR, exist_ok=True)
     lines = []
     seen_known = {}
@@ -178,6 +181,7 @@ def finish(engine, prop, tier, seed, runs, res, wall, write_evidence=True, diges
         "other_property_oracles_tripped": sorted({o for r in good for o in r.get("others", [])}),
         "components": COMPONENTS,
         "known_findings_matched": dict(sorted(seen_known.items())),
+        "violations_not_reproducible_in_a_cold_interpreter": len(weak),
     }
     for extra in ("model_states", "distinct_switch_sites", "context_switches", "late_instrumented", "lock_ops", "overlap_runs"):
         vals = [r[extra] for r in good if extra in r]
